@@ -59,6 +59,25 @@ def scope_params(scope):
     return [(scope, 'a'), (scope, 'b')]
 
 
+def final_phase(env, disp, mods, conns, model, K, alive):
+    """after the matching deactivate of every scope a connection still holds, nothing is delivered to it any more
+    (finds subscriptions that leaked into the tables without ever being requested)"""
+    for ci, c in enumerate(conns):
+        if not alive[ci]:
+            continue
+        snapshot = set(model[ci])
+        for scope in sorted(snapshot, key=str):
+            disp.handle_request(c, ('deactivate', scope, None))
+        n0 = len(c.sent)
+        for mo, pa in PARAMS:
+            setattr(mods[mo], pa, mods[mo].parameters[pa].value + 1)
+        env.check(len(c.sent) == n0, K + '/update-delivered-after-all-scopes-were-deactivated',
+                  [ci, sorted(map(str, snapshot)), [m[1] for m in c.sent[n0:]]])
+        # restore the scopes for the remaining checks
+        for scope in sorted(snapshot, key=str):
+            disp.handle_request(c, ('activate', scope, None))
+
+
 def run_history(env, p):
     srv = build()
     disp = srv.dispatcher
@@ -67,6 +86,7 @@ def run_history(env, p):
     for c in conns:
         disp.add_connection(c)
     model = [set(), set()]
+    alive = [True, True]
     K = 'C08'
     last = [{}, {}]    # per connection: last message per parameter
     for step in range(p['depth']):
@@ -120,6 +140,7 @@ def run_history(env, p):
             ci = env.choice(f'conn{step}', 2)
             disp.remove_connection(conns[ci])
             model[ci] = set()
+            alive[ci] = False
         else:
             mo, pa = PARAMS[env.choice(f'param{step}', len(PARAMS))]
             x = env.real(f'x{step}', -1000, 1000)
@@ -141,6 +162,12 @@ def run_history(env, p):
             for msg in c.sent[n0[ci]:]:
                 if msg[0] in ('update', 'error_update'):
                     last[ci][msg[1]] = msg
+    nfin = [len(c.sent) for c in conns]
+    final_phase(env, disp, mods, conns, model, K, alive)
+    for ci, c in enumerate(conns):
+        for msg in c.sent[nfin[ci]:]:
+            if msg[0] in ('update', 'error_update'):
+                last[ci][msg[1]] = msg
     # once things are quiet: for every parameter still in scope, the last message held equals the cache
     for ci in range(2):
         for mo, pa in PARAMS:
